@@ -874,35 +874,37 @@ pub fn registry() -> Vec<Entry> {
     cross!(v; [Option, Vec, VecDeque, LinkedList, Box, Rc, Arc, RefCell, Wrapping, Reverse, Range, RangeInclusive,
                RangeFrom, RangeTo, RangeToInclusive, Bound, PhantomData, NamedS, TupleS, EnumE,
                Arr0, Arr1, Arr3, BoxSl, RcSl, ArcSl, SV, Tup1];
-           [u16, i64, u128, String, f64]);
-    cross!(v; [Option, Vec, Bound, EnumE, Arr3]; [u8, i8, u32, i16, i32, u64, i128, usize, isize, bool, char, f32, (), NonZeroU16, NonZeroI64, Duration, Big, AtomicU32]);
-    cross!(v; [BSet, FxSet, FxDashSet]; [u16, String, i64, NonZeroU32, Big, char, bool]);
+           [u16, i64, String]);
+    cross!(v; [Option, Vec, EnumE]; [u8, i8, u32, i16, i32, u64, u128, i128, usize, isize, bool, char, f32, f64, (), NonZeroU16, NonZeroI64, Duration, Big, AtomicU32]);
+    cross!(v; [BSet, FxSet, FxDashSet]; [u16, String, i64, Big, char]);
     cross!(v; [Cell]; [u8, i16, u64, bool, char, f32, NonZeroI8]);
     cross!(v; [CowT]; [u32, String, i128]);
     cross!(v; [CowSl]; [u8, u16, String]);
-    cross2!(v; [Result, Pair, Either, BTreeMap, FxMap, FxDashMap]; [(u8, u8), (u16, String), (String, i64), (i32, u128), (char, bool)]);
+    cross2!(v; [Result, Pair, Either, BTreeMap, FxMap, FxDashMap]; [(u8, u8), (u16, String), (String, i64)]);
     reg!(v; (u8, i16), (u16, String, f32), (u8, u16, u32, u64), (i8, i16, i32, i64, i128), (bool, char, (), String, u8, u8),
          (u8, u8, u8, u8, u8, u8, u8), (u16, u16, u16, u16, u16, u16, u16, u16), (i16, i16, i16, i16, i16, i16, i16, i16, i16),
          (u32, u8, u32, u8, u32, u8, u32, u8, u32, u8), (u8, u16, u32, u64, u128, i8, i16, i32, i64, i128, bool),
          (u8, u16, u32, u64, u128, usize, i8, i16, i32, i64, i128, isize), [u16; 32], [String; 2],
-         Vec<BitVec<u8, Lsb0>>, Option<BitVec<u8, Msb0>>, (BitVec<u8, Lsb0>, u16));
+         Vec<BitVec<u8, Lsb0>>, Option<BitVec<u8, Msb0>>, (BitVec<u8, Lsb0>, u16), Result<i32, u128>, BTreeMap<char, bool>);
     // depth 2: every unary constructor over depth-1 types
     cross!(v; [Option, Vec, VecDeque, LinkedList, Box, Rc, Arc, RefCell, Wrapping, Reverse, Range, RangeInclusive,
                RangeFrom, RangeTo, RangeToInclusive, Bound, PhantomData, NamedS, TupleS, EnumE,
                Arr0, Arr1, Arr3, BoxSl, RcSl, ArcSl, SV, Tup1];
-           [Option<u16>, Vec<String>, (u8, i64), EnumE<i16>, FxMap<u16, String>]);
-    cross!(v; [BSet, FxSet, FxDashSet]; [Option<u32>, Vec<u8>, (u8, u16), Box<i16>, Reverse<u64>, BSet<u8>]);
+           [Option<u16>, Vec<String>, EnumE<i16>]);
+    cross!(v; [Option, Vec, Bound, NamedS]; [(u8, i64), FxMap<u16, String>, Result<u8, u8>, BSet<String>]);
+    cross!(v; [BSet, FxSet, FxDashSet]; [Option<u32>, Vec<u8>, (u8, u16), Reverse<u64>]);
     cross!(v; [Cell]; [Option<u32>, (u8, u16), Wrapping<i64>, [u16; 3]]);
-    cross!(v; [CowT]; [Vec<u8>, Option<i64>, (u8, u8)]);
+    cross!(v; [CowT]; [Vec<u8>, Option<i64>]);
     cross!(v; [CowSl]; [Option<u8>, (u8, String)]);
-    cross2!(v; [Result, Pair, Either, BTreeMap, FxMap, FxDashMap]; [(Option<u8>, Vec<u16>), ((u8, u8), String), (Vec<u8>, Option<i64>), (Box<u16>, EnumE<u8>)]);
+    cross2!(v; [Result, Pair, Either, BTreeMap, FxMap, FxDashMap]; [(Option<u8>, Vec<u16>), ((u8, u8), String)]);
     // depth 3
     cross!(v; [Option, Vec, VecDeque, LinkedList, Box, Rc, Arc, RefCell, Wrapping, Reverse, Range, RangeInclusive,
                RangeFrom, RangeTo, RangeToInclusive, Bound, PhantomData, NamedS, TupleS, EnumE,
                Arr0, Arr1, Arr3, BoxSl, RcSl, ArcSl, SV, Tup1];
-           [Vec<Option<i32>>, Option<(u16, String)>, NamedS<Vec<u8>>, FxMap<u8, Vec<u16>>]);
-    cross!(v; [BSet, FxSet, FxDashSet]; [Vec<Option<u8>>, (u8, Option<String>), Option<Box<i32>>]);
-    cross2!(v; [Result, Pair, Either, BTreeMap, FxMap, FxDashMap]; [(Vec<Option<u8>>, Option<Vec<u16>>), (Option<(u8, u8)>, Result<u8, String>)]);
+           [Vec<Option<i32>>, FxMap<u8, Vec<u16>>]);
+    cross!(v; [Option, Vec, EnumE]; [Option<(u16, String)>, NamedS<Vec<u8>>]);
+    cross!(v; [BSet, FxSet, FxDashSet]; [Vec<Option<u8>>, (u8, Option<String>)]);
+    cross2!(v; [Result, Pair, Either, BTreeMap, FxMap, FxDashMap]; [(Vec<Option<u8>>, Option<Vec<u16>>)]);
     reg!(v; Vec<Vec<Vec<u16>>>, Option<Option<Option<i64>>>, Result<Result<u8, String>, Vec<Option<i16>>>,
          BTreeMap<String, BTreeMap<u16, Vec<u8>>>, (Vec<(u8, Option<String>)>, EnumE<EnumE<u8>>, Bound<Range<i32>>),
          Vec<Vec<Vec<Vec<Option<u8>>>>>, NamedS<TupleS<EnumE<Pair<u8, Either<u16, String>>>>>, Arc<Rc<Box<RefCell<Cell<u16>>>>>,
